@@ -26,7 +26,11 @@ func rndPicker(r *Route) *Target {
 func rrPicker(r *Route) *Target {
 	// use the value returned by the atomic increment so that concurrent
 	// callers never read the cursor unsynchronized or share a slot
-	n := atomic.AddUint64(&r.total, 1) - 1
+	c := r.cursor
+	if c == nil {
+		c = &r.total
+	}
+	n := atomic.AddUint64(c, 1) - 1
 	return r.wTargets[n%uint64(len(r.wTargets))]
 }
 
